@@ -57,13 +57,15 @@ type SymSlice struct {
 }
 
 type MapV struct {
-	keys []Value
-	vals []Value
-	live []bool
-	idx  map[interface{}]int
-	n    int
-	nsym int
-	id   int
+	keys     []Value
+	vals     []Value
+	live     []bool
+	idx      map[interface{}]int
+	n        int
+	nsym     int
+	lazyElem types.Type
+	lazyKey  types.Type
+	id       int
 }
 
 func newMap() *MapV { return &MapV{idx: map[interface{}]int{}} }
